@@ -99,11 +99,12 @@ Definition model_agrees (c : case) : bool :=
 
 (* ---- half 2: the property, on what gorm returned ---- *)
 (* the database value a field value stands for (what a map read of the column must show) *)
+Fixpoint uncustom (k : kind) : kind := match k with KCustom k' => uncustom k' | _ => k end.
 Fixpoint proj (k : kind) (v : goval) {struct v} : dbval :=
   match v with
   | GAbsent | GNil => DNull
   | GSome v' =>
-      match k with
+      match uncustom k with
       | KPtr k' | KNull k' => proj k' v'
       | KSer s (KPtr k') => proj (KSer s k') v'
       | _ => DNull
